@@ -26,7 +26,7 @@
 
 use bytes::Bytes;
 use proptest::prelude::*;
-use redis_sim::production::{verif_hooks, ConnectionConfig, ShardConfig, ShardedActorState};
+use redis_sim::production::{verif_hooks, ConnectionConfig, PerformanceConfig, ResponsePoolConfig, ShardConfig, ShardedActorState};
 use redis_sim::redis::Command;
 use serde::{Deserialize, Serialize};
 use serde_json::json;
@@ -107,6 +107,67 @@ fn mk_state(n: usize, time: &VerifTime) -> State {
     ShardedActorState::with_config_and_time_source(ShardConfig::with_shards(n), time.clone())
 }
 
+/// The whole configuration space the constructors accept (they never return an error): the
+/// number of shards that run is `initial.max(min).min(max)`, not `initial`.
+#[derive(Clone, Debug, PartialEq, Eq, Hash, Serialize, Deserialize)]
+struct ShardCfg {
+    initial: usize,
+    min: usize,
+    max: usize,
+    auto_scale: bool,
+    adaptive: bool,
+    load_check_ms: u64,
+    /// Some((capacity, prewarm)) = construct through with_perf_config_and_time_source
+    pool: Option<(usize, usize)>,
+}
+
+impl ShardCfg {
+    fn plain(n: usize) -> ShardCfg {
+        ShardCfg { initial: n, min: 1, max: 256, auto_scale: false, adaptive: false, load_check_ms: 10_000, pool: None }
+    }
+    /// shards that actually run
+    fn effective(&self) -> usize {
+        self.initial.max(self.min).min(self.max)
+    }
+    fn is_plain(&self) -> bool {
+        *self == ShardCfg::plain(self.initial)
+    }
+    fn shard_config(&self) -> ShardConfig {
+        ShardConfig {
+            initial_shards: self.initial,
+            min_shards: self.min,
+            max_shards: self.max,
+            auto_scale: self.auto_scale,
+            adaptive_replication: self.adaptive,
+            load_check_interval_ms: self.load_check_ms,
+        }
+    }
+    fn perf(&self) -> Option<PerformanceConfig> {
+        self.pool.map(|(cap, pre)| PerformanceConfig {
+            num_shards: self.initial.max(1),
+            response_pool: ResponsePoolConfig { capacity: cap.max(1), prewarm: pre.min(cap.max(1)) },
+            ..PerformanceConfig::default()
+        })
+    }
+    fn show(&self) -> String {
+        if self.is_plain() {
+            format!("{} shards", self.initial)
+        } else {
+            format!(
+                "{} shards (initial {}, min {}, max {}, auto_scale {}, adaptive {}, pool {:?})",
+                self.effective(), self.initial, self.min, self.max, self.auto_scale, self.adaptive, self.pool
+            )
+        }
+    }
+}
+
+fn mk_state_cfg(cfg: &ShardCfg, time: &VerifTime) -> State {
+    match cfg.perf() {
+        Some(perf) => ShardedActorState::with_perf_config_and_time_source(&perf, cfg.shard_config(), time.clone()),
+        None => ShardedActorState::with_config_and_time_source(cfg.shard_config(), time.clone()),
+    }
+}
+
 fn a(parts: &[&[u8]]) -> Argv {
     parts.iter().map(|p| p.to_vec()).collect()
 }
@@ -179,8 +240,11 @@ enum Step {
 
 #[derive(Clone, Debug, Serialize, Deserialize)]
 struct ApiCase {
-    /// shard counts compared against one shard
+    /// shard counts compared against one shard (`ShardConfig::with_shards(n)`)
     shards: Vec<usize>,
+    /// full configurations compared against one shard
+    #[serde(default)]
+    cfgs: Vec<ShardCfg>,
     steps: Vec<Step>,
 }
 
@@ -471,6 +535,27 @@ fn show_walk(w: &Result<BTreeSet<Vec<u8>>, Reply>) -> String {
     }
 }
 
+/// COUNT of a SCAN argv (default 10)
+fn scan_count(argv: &Argv) -> usize {
+    let mut i = 2;
+    while i + 1 < argv.len() {
+        if argv[i].eq_ignore_ascii_case(b"COUNT") {
+            return std::str::from_utf8(&argv[i + 1]).ok().and_then(|s| s.parse().ok()).unwrap_or(10);
+        }
+        i += 1;
+    }
+    10
+}
+
+/// what the unchanged sharded SCAN yields: per shard the first `count` matching keys in key order
+fn scan_rule(matching: &BTreeSet<Vec<u8>>, count: usize, n: usize, r: &Routing) -> BTreeSet<Vec<u8>> {
+    let mut out = BTreeSet::new();
+    for shard in 0..n {
+        out.extend(matching.iter().filter(|k| r.generic(k, n) == shard).take(count).cloned());
+    }
+    out
+}
+
 fn scan_pattern(argv: &Argv) -> Vec<u8> {
     let mut i = 2;
     while i + 1 < argv.len() {
@@ -507,31 +592,47 @@ async fn dump_state(st: &State) -> Dump {
 }
 
 fn check_api(case: &ApiCase, ctx: &mut CaseCtx<'_>) -> Result<(), String> {
-    if case.shards.is_empty() || case.shards.iter().any(|&n| n == 0 || n > 256) {
+    let mut cfgs: Vec<ShardCfg> = case.shards.iter().map(|&n| ShardCfg::plain(n)).collect();
+    cfgs.extend(case.cfgs.iter().cloned());
+    if cfgs.is_empty() || cfgs.iter().any(|c| c.effective() == 0 || c.effective() > 256) {
         return Ok(());
     }
-    // one twin run (1 shard vs N shards) per shard count, so that the known-finding exclusions
-    // are computed for exactly that N and do not leak from a large N to a small one
+    // one twin run (1 shard vs this configuration) per configuration, so that the known-finding
+    // exclusions are computed for exactly that shard count
     let mut nontrivial = false;
-    for &n in &case.shards {
+    for cfg in &cfgs {
         let sub = ApiCase {
-            shards: vec![n],
+            shards: vec![cfg.effective()],
+            cfgs: vec![],
             steps: case.steps.clone(),
         };
-        nontrivial |= vcore::block_on(run_api(&sub, ctx))?;
+        nontrivial |= vcore::block_on(run_api(&sub, cfg, ctx))?;
+        if !cfg.is_plain() {
+            ctx.label("cfg:non_default_fields");
+        }
+        if cfg.effective() != cfg.initial {
+            ctx.label("cfg:initial_outside_min_max");
+        }
+        if cfg.pool.is_some() {
+            ctx.label("cfg:via_perf_config");
+        }
+        if cfg.auto_scale || cfg.adaptive {
+            ctx.label("cfg:adaptive_flags");
+        }
     }
-    ctx.label(&format!("shards={:?}", case.shards));
+    ctx.label(&format!("shards={:?}", cfgs.iter().map(|c| c.effective()).collect::<Vec<_>>()));
     if nontrivial {
         ctx.nontrivial(&serde_json::to_string(case).unwrap_or_default());
     }
     Ok(())
 }
 
-async fn run_api(case: &ApiCase, ctx: &mut CaseCtx<'_>) -> Result<bool, String> {
+async fn run_api(case: &ApiCase, cfg: &ShardCfg, ctx: &mut CaseCtx<'_>) -> Result<bool, String> {
     let r = routing();
     let time = VerifTime::new(0);
     let reference = mk_state(1, &time);
-    let subjects: Vec<(usize, State)> = case.shards.iter().map(|&n| (n, mk_state(n, &time))).collect();
+    let subjects: Vec<(usize, State)> = vec![(cfg.effective(), mk_state_cfg(cfg, &time))];
+    let cfg_note = if cfg.is_plain() { String::new() } else { format!("    configuration of the N-shard instance: {}\n", cfg.show()) };
     let kf_hash_open = ctx.finding_open(KF_HASH);
 
     // a clock step without a TTL tick leaves per-shard clocks behind the harness clock
@@ -632,17 +733,22 @@ async fn run_api(case: &ApiCase, ctx: &mut CaseCtx<'_>) -> Result<bool, String> 
                 if w1 == wn {
                     continue;
                 }
-                // KF-C03-04: the sharded SCAN ignores the cursor and always answers cursor 0
-                // with at most COUNT keys *per shard*: a walk is truncated, and by a different
-                // amount for different shard counts. Recognised only when both walks stay
-                // inside the instance's own KEYS <pattern>, those agree, and at least one
-                // walk is a strict subset (i.e. truncated).
+                // KF-C03-04: the sharded SCAN ignores the cursor, sends `SCAN 0 COUNT c` to every
+                // shard and always answers cursor 0, i.e. a walk yields the first c (default 10)
+                // matching keys of every shard in key order. Tolerated: exactly that loss and
+                // nothing else — both instances hold the same matching keys, and each walk is
+                // precisely what this rule yields for its shard count (computed from the
+                // instance's own KEYS <pattern> and the routing replica).
                 if let (Ok(s1), Ok(sn)) = (&w1, &wn) {
                     let pat = scan_pattern(argv);
+                    let count = scan_count(argv);
                     let k1 = keys_set(&reference, &pat).await;
                     let kn = keys_set(st, &pat).await;
-                    let truncated = s1.len() < k1.len() || sn.len() < kn.len();
-                    if k1 == kn && s1.is_subset(&k1) && sn.is_subset(&kn) && truncated && ctx.tolerate(KF_SCAN) {
+                    if k1 == kn
+                        && *s1 == scan_rule(&k1, count, 1, &r)
+                        && *sn == scan_rule(&kn, count, *n, &r)
+                        && ctx.tolerate(KF_SCAN)
+                    {
                         continue;
                     }
                 }
@@ -701,8 +807,8 @@ async fn run_api(case: &ApiCase, ctx: &mut CaseCtx<'_>) -> Result<bool, String> 
                 continue;
             }
             return Err(format!(
-                "step #{} {}: replies differ\n    1 shard : {}\n    {} shards: {}\n    program:\n{}",
-                i, show_step(step), r1.show(), n, rn.show(), show_program(&case.steps, i)
+                "step #{} {}: replies differ\n    1 shard : {}\n    {} shards: {}\n{}    program:\n{}",
+                i, show_step(step), r1.show(), n, rn.show(), cfg_note, show_program(&case.steps, i)
             ));
         }
         if resync {
@@ -738,8 +844,8 @@ async fn run_api(case: &ApiCase, ctx: &mut CaseCtx<'_>) -> Result<bool, String> 
         let dn = dump_state(st).await;
         if dn != d1 {
             return Err(format!(
-                "final keyspace differs between 1 shard and {} shards\n  1 shard:\n{}  {} shards:\n{}  program:\n{}",
-                n, show_dump(&d1), n, show_dump(&dn), show_program(&case.steps, case.steps.len().saturating_sub(1))
+                "final keyspace differs between 1 shard and {} shards\n{}  1 shard:\n{}  {} shards:\n{}  program:\n{}",
+                n, cfg_note, show_dump(&d1), n, show_dump(&dn), show_program(&case.steps, case.steps.len().saturating_sub(1))
             ));
         }
         all.push((*n, st, dn));
@@ -813,6 +919,19 @@ fn extra_commands(o: &GenOpts) -> BoxedStrategy<Argv> {
     let k = || gen::key(o);
     prop_oneof![
         3 => Just(a(&[b"RANDOMKEY"])),
+        // COUNT >= number of keys: the regime in which the sharded SCAN is shard-count independent
+        3 => (prop_oneof![2 => Just(None), 1 => gen::pattern().prop_map(Some)],
+              prop_oneof![Just(16u32), Just(17u32), Just(20u32), Just(32u32), Just(64u32), Just(1000u32)])
+            .prop_map(|(p, c)| {
+                let mut v = a(&[b"SCAN", b"0"]);
+                if let Some(p) = p {
+                    v.push(b"MATCH".to_vec());
+                    v.push(p);
+                }
+                v.push(b"COUNT".to_vec());
+                v.push(c.to_string().into_bytes());
+                v
+            }),
         2 => k().prop_map(|k| a(&[b"SORT", &k])),
         2 => (k(), k()).prop_map(|(k, d)| a(&[b"SORT", &k, b"STORE", &d])),
         2 => k().prop_map(|k| a(&[b"EVAL", EVAL_INCR, b"1", &k])),
@@ -1020,20 +1139,51 @@ const QUICK_PAIRS: &[[usize; 2]] = &[
     [3, 7], // not admitted by PerformanceConfig::validate, accepted by ShardConfig
 ];
 
+/// A configuration whose effective shard count is `n`: mostly `with_shards(n)`, otherwise any
+/// field combination the constructors accept, incl. `initial` outside [min, max].
+fn cfg_for(n: usize) -> BoxedStrategy<ShardCfg> {
+    let pool = prop_oneof![
+        3 => Just(None),
+        1 => Just(Some((256usize, 64usize))),
+        1 => Just(Some((1usize, 1usize))),
+        1 => Just(Some((3usize, 0usize))),
+    ];
+    let flags = (any::<bool>(), any::<bool>(), prop_oneof![Just(10_000u64), Just(1u64)], pool);
+    let shape = prop_oneof![
+        // (initial, min, max)
+        4 => Just((n, 1usize, 256usize)),
+        3 => (0usize..n.max(1)).prop_map(move |i| (i, n, 256usize)),            // raised by min
+        2 => prop_oneof![Just(n * 2), Just(n + 1), Just(300usize)].prop_map(move |i| (i, 1usize, n)), // capped by max
+        1 => (0usize..400).prop_map(move |i| (i, n, n)),                       // min = max
+        1 => (0usize..400, 1usize..4).prop_map(move |(i, d)| (i, n + d, n)),  // min > max: max wins
+    ];
+    prop_oneof![
+        5 => Just(ShardCfg::plain(n)),
+        5 => (shape, flags).prop_map(|((initial, min, max), (auto_scale, adaptive, load_check_ms, pool))| ShardCfg {
+            initial, min, max, auto_scale, adaptive, load_check_ms, pool,
+        }),
+    ]
+    .boxed()
+}
+
 fn api_case(thorough: bool) -> BoxedStrategy<ApiCase> {
-    let shards: BoxedStrategy<Vec<usize>> = if thorough {
+    let ns: BoxedStrategy<Vec<usize>> = if thorough {
         prop_oneof![
-            9 => Just(vec![2usize, 4, 8, 16, 64]),
-            1 => Just(vec![3usize, 7, 5, 32, 128]),
+            17 => Just(vec![2usize, 4, 8, 16, 64]),
+            2 => Just(vec![3usize, 7, 5, 32, 128]),
+            1 => Just(vec![2usize, 6, 12, 256]),
         ]
         .boxed()
     } else {
-        any::<u16>()
-            .prop_map(|i| QUICK_PAIRS[(i as usize * QUICK_PAIRS.len()) >> 16].to_vec())
-            .boxed()
+        prop_oneof![
+            60 => any::<u16>().prop_map(|i| QUICK_PAIRS[(i as usize * QUICK_PAIRS.len()) >> 16].to_vec()),
+            1 => Just(vec![2usize, 256]),
+        ]
+        .boxed()
     };
-    (shards, proptest::collection::vec(step_strategy(), 1..40))
-        .prop_map(|(shards, groups)| ApiCase { shards, steps: groups.into_iter().flatten().collect() })
+    let cfgs = ns.prop_flat_map(|ns| ns.into_iter().map(cfg_for).collect::<Vec<_>>());
+    (cfgs, proptest::collection::vec(step_strategy(), 1..40))
+        .prop_map(|(cfgs, groups)| ApiCase { shards: vec![], cfgs, steps: groups.into_iter().flatten().collect() })
         .boxed()
 }
 
@@ -1049,6 +1199,12 @@ struct ConnCase {
     cmds: Vec<Argv>,
     /// cut positions of the byte stream as fractions (u16 / 65536) of its length
     cuts: Vec<u16>,
+    /// full shard configuration of the N-shard server (None: with_shards(n))
+    #[serde(default)]
+    cfg: Option<ShardCfg>,
+    /// (min_pipeline_buffer, batch_threshold) of both connection handlers (None: see `batching`)
+    #[serde(default)]
+    conn_cfg: Option<(usize, usize)>,
 }
 
 fn conn_opts() -> GenOpts {
@@ -1092,20 +1248,26 @@ fn conn_case() -> BoxedStrategy<ConnCase> {
         2 => script_probe(&o),
     ]
     .boxed();
+    const NS: &[usize] = &[2, 4, 8, 16, 64, 3];
+    let scfg = any::<u16>().prop_flat_map(|ni| cfg_for(NS[(ni as usize * NS.len()) >> 16]));
+    let conn_cfg = prop_oneof![
+        3 => Just(None),
+        1 => (prop_oneof![Just(0usize), Just(30usize), Just(60usize), Just(200usize)], 1usize..5).prop_map(Some),
+    ];
     (
-        any::<u16>(),
+        scfg,
         any::<bool>(),
         proptest::collection::vec(group, 1..16),
         proptest::collection::vec(any::<u16>(), 0..6),
+        conn_cfg,
     )
-        .prop_map(|(ni, batching, groups, cuts)| {
-            const NS: &[usize] = &[2, 4, 8, 16, 64, 3];
-            ConnCase {
-                n: NS[(ni as usize * NS.len()) >> 16],
-                batching,
-                cmds: groups.into_iter().flatten().collect(),
-                cuts,
-            }
+        .prop_map(|(scfg, batching, groups, cuts, conn_cfg)| ConnCase {
+            n: scfg.effective(),
+            batching,
+            cmds: groups.into_iter().flatten().collect(),
+            cuts,
+            cfg: Some(scfg),
+            conn_cfg,
         })
         .boxed()
 }
@@ -1127,8 +1289,15 @@ fn recognised_fast(argv: &Argv) -> bool {
         || (argv.len() == 3 && (argv[0] == b"SET" || argv[0] == b"set"))
 }
 
-async fn run_server(n: usize, cfg: ConnectionConfig, chunks: Vec<Vec<u8>>) -> (Vec<u8>, Dump) {
-    let state = ShardedActorState::with_shards(n);
+async fn run_server(scfg: &ShardCfg, cfg: ConnectionConfig, chunks: Vec<Vec<u8>>) -> (Vec<u8>, Dump) {
+    let state = match scfg.perf() {
+        Some(perf) => ShardedActorState::with_perf_config_and_time_source(
+            &perf,
+            scfg.shard_config(),
+            redis_sim::io::ProductionTimeSource::new(),
+        ),
+        None => ShardedActorState::with_config(scfg.shard_config()),
+    };
     let (stream, out) = ScriptedStream::new(chunks);
     verif_hooks::run_connection(stream, state.clone(), cfg).await;
     let bytes = out.lock().unwrap().clone();
@@ -1153,7 +1322,11 @@ fn check_conn(case: &ConnCase, ctx: &mut CaseCtx<'_>) -> Result<(), String> {
         return Ok(());
     }
     let r = routing();
-    let n = case.n;
+    let scfg = case.cfg.clone().unwrap_or_else(|| ShardCfg::plain(case.n));
+    let n = scfg.effective();
+    if n == 0 || n > 256 {
+        return Ok(());
+    }
     let kf_hash_open = ctx.finding_open(KF_HASH);
 
     // ---- exclusions by construction (only while the findings are open), counted
@@ -1232,7 +1405,13 @@ fn check_conn(case: &ConnCase, ctx: &mut CaseCtx<'_>) -> Result<(), String> {
             last = c;
         }
     }
-    let cfg = if case.batching {
+    let cfg = if let Some((min_pipeline_buffer, batch_threshold)) = case.conn_cfg {
+        ConnectionConfig {
+            min_pipeline_buffer,
+            batch_threshold,
+            ..ConnectionConfig::default()
+        }
+    } else if case.batching {
         ConnectionConfig::default()
     } else {
         ConnectionConfig {
@@ -1241,8 +1420,14 @@ fn check_conn(case: &ConnCase, ctx: &mut CaseCtx<'_>) -> Result<(), String> {
         }
     };
 
-    let (b1, d1) = vcore::block_on(run_server(1, cfg.clone(), chunks.clone()));
-    let (bn, dn) = vcore::block_on(run_server(n, cfg, chunks));
+    let (b1, d1) = vcore::block_on(run_server(&ShardCfg::plain(1), cfg.clone(), chunks.clone()));
+    let (bn, dn) = vcore::block_on(run_server(&scfg, cfg, chunks));
+    if !scfg.is_plain() {
+        ctx.label("cfg:non_default_fields");
+    }
+    if scfg.effective() != scfg.initial {
+        ctx.label("cfg:initial_outside_min_max");
+    }
     let program = || {
         cmds.iter()
             .enumerate()
@@ -1369,6 +1554,7 @@ fn main() {
         || {
             let case = ApiCase {
                 shards: vec![n16],
+                cfgs: vec![],
                 steps: vec![
                     Step::Cmd { argv: a(&[b"SET", &split_key, b"v"]), path: Path::Fast },
                     cmd(&[b"GET", &split_key]),
@@ -1380,6 +1566,8 @@ fn main() {
                 batching: false,
                 cmds: vec![a(&[b"SET", &split_key, b"1"]), a(&[b"INCR", &split_key])],
                 cuts: vec![],
+                cfg: None,
+                conn_cfg: None,
             };
             let conn = s.strict_eval(|ctx| check_conn(&conn, ctx)).err();
             match (api, conn) {
@@ -1410,7 +1598,7 @@ fn main() {
                 ("EVAL 2 keys", vec![cmd(&[b"SET", &ka, b"x"]), cmd(&[b"EVAL", EVAL_COPY, b"2", &ka, &kb]), cmd(&[b"GET", &kb])]),
             ];
             for (name, steps) in programs {
-                let case = ApiCase { shards: vec![n16], steps };
+                let case = ApiCase { shards: vec![n16], cfgs: vec![], steps };
                 if let Err(e) = s.strict_eval(|ctx| check_api(&case, ctx)) {
                     what.push(format!("{}: {}", name, e.lines().take(3).collect::<Vec<_>>().join(" ")));
                 }
@@ -1429,6 +1617,7 @@ fn main() {
         || {
             let case = ApiCase {
                 shards: vec![n16],
+                cfgs: vec![],
                 steps: vec![cmd(&[b"SET", &off0, b"v"]), cmd(&[b"RANDOMKEY"])],
             };
             s.strict_eval(|ctx| check_api(&case, ctx)).err()
@@ -1445,6 +1634,7 @@ fn main() {
             }
             let case = ApiCase {
                 shards: vec![4],
+                cfgs: vec![],
                 steps: vec![Step::Cmd { argv: mset, path: Path::Generic }, cmd(&[b"SCAN", b"0"])],
             };
             s.strict_eval(|ctx| check_api(&case, ctx)).err()
@@ -1462,6 +1652,7 @@ fn main() {
             || {
                 let case = ApiCase {
                     shards: vec![2],
+                cfgs: vec![],
                     steps: vec![
                         cmd(&[b"SET", &sa, b"v", b"PX", b"10"]),
                         Step::Clock { ms: 20, evict: false },
